@@ -24,6 +24,11 @@ def unary_menu():
     add(("acc", "add", None, False), ("i",), "i")
     add(("acc", "add", 0, False), ("i",), "i")
     add(("acc", "accrs", 0, True), ("i",), "i")
+    add(("mapargs",), ("i",), "i")                 # extra positional / keyword arguments are forwarded
+    add(("starmapkw",), ("p",), "i")
+    add(("filterargs",), ("i",), "i")
+    add(("accws",), ("i",), "p")                   # with_state=True emits (state, result)
+    add(("pkey", "idx"), ("p",), "p")              # partition keyed by x[0] (non-callable key)
     add(("flatten",), ("p", "tn", "te"), "i")
     add(("pluck", 0), ("p", "tn"), "i")
     add(("pluck", (1, 0)), ("p",), "p")
